@@ -27,6 +27,7 @@ from bqskit.ir.gates.constant.sx import SqrtXGate
 from bqskit.ir.gates.measure import MeasurementPlaceholder
 from bqskit.ir.gates.parameterized.rz import RZGate
 from bqskit.ir.gates.parameterized.u3 import U3Gate
+from bqskit.ir.gates.parameterized.unitary import VariableUnitaryGate
 from bqskit.ir.operation import Operation
 from bqskit.ir.opt import HilbertSchmidtCostGenerator
 from bqskit.ir.opt import ScipyMinimizer
@@ -1663,7 +1664,9 @@ def _synthesis_workflow(
             'method': 'minimization',
             'minimizer': ScipyMinimizer(),
             'cost_fn_gen': HilbertSchmidtCostGenerator(),
-        } if input.radixes == (2,) else {},
+        } if input.radixes == (2,) and not any(
+            isinstance(g, VariableUnitaryGate) for g in model.gate_set
+        ) else {},
     )
 
     qsearch = QSearchSynthesisPass(
